@@ -113,6 +113,7 @@ class PrepareOutputDirectory:
         "os.path.isdir": External(returns=Bool),
         "os.path.join": External(returns=Str),
         "glob.glob": External(returns=ListOf(Str, 0, 2)),
+        "os.listdir": External(returns=ListOf(Str, 0, 2)),
     }
 
     def _may_raise(name, input_file):
